@@ -1,5 +1,5 @@
 CONSTANTS Formats = {0, 4, 8, 12} SpaLens = {2, 6} StartCi = {0, 254} PayCi = {0, 9, 255} ForeignLens = {2, 3} Bursts = {2, 16, 240, 255} MaxPk = 5
-  Modes = {"cont"} ContFull = TRUE
+  Modes = {"cont"} ContFull = FALSE
   Listen <- ListenM
   Pays <- SpecialPays
 SPECIFICATION Spec
